@@ -6,12 +6,14 @@ Iota1(k, base) == [i \in 1..k |-> base + i - 1]
 Copies(k, v) == [i \in 1..k |-> v]
 
 MacroOK(r) ==
-    CASE r.form \in {"list", "list_trailing", "list_noncopy"} ->
+    \* ("hyg_" forms: the same invocations made in a module where vec!, Box, Vec, core, alloc, std ... name the
+    \*  caller's own items; "repeat_constgeneric": the constant length is a const generic parameter of the enclosing fn)
+    CASE r.form \in {"list", "list_trailing", "list_noncopy", "hyg_list"} ->
             /\ r.evals = Iota1(r.k, 0) /\ r.items = Iota1(r.k, 1000) /\ r.len = r.k
             /\ r.bevals = r.evals /\ r.bitems = r.items /\ r.blen = r.k
       [] r.form = "const_list" ->
             /\ r.evals = <<>> /\ r.items = Iota1(r.k, 1000) /\ r.len = r.k /\ r.bitems = r.items /\ r.blen = r.k
-      [] r.form \in {"repeat_ty", "repeat_const"} ->
+      [] r.form \in {"repeat_ty", "repeat_const", "hyg_repeat_ty", "hyg_repeat_const", "repeat_constgeneric"} ->
             /\ r.evals = <<7>> /\ r.items = Copies(r.k, 1007) /\ r.len = r.k
             /\ r.bevals = <<7>> /\ r.bitems = r.items /\ r.blen = r.k
       [] r.form = "const_repeat" ->
